@@ -9,6 +9,7 @@ import Robsd.Model.Ls
 import Robsd.Model.Schedule
 import Robsd.Model.Exec
 import Robsd.Model.Clean
+import Robsd.Model.Orch
 /-
   robsd_model: the executable models behind a line protocol.
   One request per line: `<component> <op> <args…>`; byte strings are hex
@@ -128,8 +129,29 @@ def schedArgs (s : String) : List (Bytes × List Bytes) :=
 
 def showArgv (a : List Bytes) : String := ";".intercalate (a.map toHex)
 
+def evOf (s : String) : Option Orch.Ev :=
+  match s.splitOn ":" with
+  | "S" :: i :: sync :: [] => some (.start (i.toNat?.getD 0) (sync == "1"))
+  | "F" :: i :: e :: [] => some (.finish (i.toNat?.getD 0) (e.toInt?.getD 0))
+  | "E" :: i :: [] => some (.endRec (i.toNat?.getD 0))
+  | _ => none
+
 def handle (ws : List String) : String :=
   match ws with
+  | "orchp" :: "accepts" :: ncpu :: skip :: evs :: [] =>
+    let c : Orch.Cfg := ⟨ncpu.toNat?.getD 1, fun j => (natList skip).contains j⟩
+    if Orch.accepts c ((listOf evs).filterMap evOf) then "accept" else "reject"
+  | "orchp" :: "result" :: ncpu :: skip :: exits :: steps :: [] =>
+    -- steps: id:par:end,...   result: ok/fail + whether end is recorded
+    let c : Orch.Cfg := ⟨ncpu.toNat?.getD 1, fun j => (natList skip).contains j⟩
+    let ex := intFun exits
+    let o : Orch.Oracle := ⟨fun i => ex i, fun _ _ => false⟩
+    let ss : List Orch.Step := (listOf steps).filterMap fun e => match e.splitOn ":" with
+      | i :: p :: en :: [] => some ⟨i.toNat?.getD 0, p == "1", en == "1"⟩
+      | _ => none
+    let r := Orch.run c o ss [] 0
+    s!"{if r.2 then "ok" else "fail"} {if Orch.hasEnd r.1 then "end" else "noend"} " ++
+      ",".intercalate ((Orch.started r.1).map toString)
   | "clean" :: n :: lock :: listing :: [] =>
     ",".intercalate ((Clean.cleaned ((listOf listing).map hexArg) (optHex lock) (n.toNat?.getD 0)).map toHex)
   | "buildid" :: date :: dirs :: [] => toHex (Clean.buildId (hexArg date) ((listOf dirs).map hexArg))
